@@ -31,6 +31,10 @@ type Req struct {
 	Chunks  int    `json:"chunks"`
 	Close   bool   `json:"close,omitempty"`  // Connection: close
 	HTTP10  bool   `json:"http10,omitempty"` // HTTP/1.0 without keep-alive (close semantics)
+	// ConnForm: how the Connection options of the request are spelled: "" = single field line;
+	// "lines" = an unrelated option in a first Connection line, the decisive one in a second;
+	// "list" = a comma list with the decisive option last
+	ConnForm string `json:"conn_form,omitempty"`
 }
 
 type ConnPlan struct {
@@ -193,7 +197,14 @@ func reqBytes(ci, seq int, r Req) []byte {
 	}
 	fmt.Fprintf(&b, "%s /c%d/s%d %s\r\nHost: verif.local\r\nX-Conn: %d\r\nX-Seq: %d\r\nX-Resp-Len: %d\r\nX-Resp-Kind: %s\r\nX-Chunks: %d\r\n", method, ci, seq, proto, ci, seq, r.RespLen, r.Kind, r.Chunks)
 	if r.Close {
-		b.WriteString("Connection: close\r\n")
+		switch r.ConnForm {
+		case "lines":
+			b.WriteString("Connection: x-opt\r\nConnection: close\r\n")
+		case "list":
+			b.WriteString("Connection: x-opt , close\r\n")
+		default:
+			b.WriteString("Connection: close\r\n")
+		}
 	}
 	if r.BodyLen > 0 {
 		fmt.Fprintf(&b, "Content-Length: %d\r\n", r.BodyLen)
@@ -473,6 +484,7 @@ func genCase(t *rapid.T) Case {
 					batch[k].HTTP10 = true
 				} else {
 					batch[k].Close = true
+					batch[k].ConnForm = rapid.SampledFrom([]string{"", "", "lines", "list"}).Draw(t, "connform")
 				}
 				if k == len(batch)-1 && rapid.IntRange(0, 1).Draw(t, "bigclose") == 0 {
 					batch[k].RespLen = rapid.SampledFrom([]int{1 << 20, 4 << 20, 6 << 20}).Draw(t, "bigcloselen")
